@@ -89,7 +89,9 @@ def link(argv, cwd, timeout=None, wild=None):
     wildrun.server_link; died = the server process ended during the request."""
     wild = wild or vlib.WILD
     timeout = timeout or TIMEOUT
-    key = (os.getpid(), wild, wsched.threads_key(argv))
+    # One server per worker whatever --threads says: wild ignores a second initialisation of the
+    # global pool ("The pool might be already initialized, suppress the error intentionally").
+    key = (os.getpid(), wild)
     srv = _SRVS.get(key)
     if srv is None:
         os.makedirs(cwd, exist_ok=True)
